@@ -23,6 +23,11 @@ The environment has the recording callees of harness/c12.py:
   f(*args, **kwargs) = Σ (i+1)·num(args[i]) + Σ w(k)·num(kwargs[k])   as a column of n rows
   g(v, k=1)          = v * 2 + k          (Python operators, scalars stay scalars)
   I(x)               = x
+and, for dotted callees, the module-like objects of the request ("mods": a flat table of the
+objects reachable from the namespace, each identified by its attribute path; an entry with
+"m" is the recording function  u(v, k=1) = v * m + k, an entry without it a plain namespace
+object, which is not callable):
+  {"mods": [{"p": ["tk"]}, {"p": ["tk", "unit"], "m": [3, 1]}, {"p": ["tk", "v2"]}, …]}
 -/
 namespace FormulaeModel.Driver.C12
 open Lean FormulaeModel FormulaeModel.Driver FormulaeModel.Lazy FormulaeModel.Spec.C12
@@ -136,13 +141,60 @@ def fnI (xs : List Val) (ks : List (String × Val)) : Except EvalErr Val :=
   | [v], [] => .ok v
   | _, _ => .error .callee
 
-def mkEnv (n : Nat) (vars : List (String × Val)) : Env where
+/-! module-like objects for dotted callees -/
+
+/-- one object reachable from the namespace: its attribute path (the first segment is the name
+it is bound to in the namespace) and, if it is a recording function, its multiplier -/
+structure ModEntry where
+  path : List String
+  mult : Option Rat
+
+/-- `u(v, k=1) = v * m + k` -/
+def fnUnit (m : Rat) (xs : List Val) (ks : List (String × Val)) : Except EvalErr Val :=
+  match xs, ks with
+  | [v], [] => do BinOp.add.apply (← BinOp.mul.apply v (.num m)) (.num 1)
+  | [v], [("k", k)] => do BinOp.add.apply (← BinOp.mul.apply v (.num m)) k
+  | _, _ => .error .callee
+
+def findObj (tbl : List ModEntry) (p : List String) : Option ModEntry := tbl.find? (fun e => e.path == p)
+
+/-- `getattr(obj, a)`, objects identified by their path (`none`: AttributeError) -/
+def getattrObj (tbl : List ModEntry) (obj : List String) (a : String) : Option (List String) :=
+  (findObj tbl (obj ++ [a])).map (·.path)
+
+/-- `get_function_from_module(name, env)` for `names = name.split(".")`: `env.namespace[names[0]]`,
+then `getattr` along `names[1:]`, each step on the object reached so far.  It is also what Python
+means by the attribute chain `a.b.c.f` (`Spec.C12.pyEval` reads a callee through the same `Env`). -/
+def lookupDotted (tbl : List ModEntry) (names : List String) : Option ModEntry :=
+  match names with
+  | [] => none
+  | head :: rest =>
+    match findObj tbl [head] with
+    | none => none
+    | some top =>
+      match rest.foldlM (getattrObj tbl) top.path with
+      | none => none
+      | some p => findObj tbl p
+
+def mkEnv (n : Nat) (vars : List (String × Val)) (mods : List ModEntry := []) : Env where
   var := fun name => (vars.find? (fun p => p.1 == name)).map (·.2)
   fn := fun name =>
     if name == "f" then some (fnF n)
     else if name == "g" then some fnG
     else if name == "I" then some fnI
-    else none
+    else
+      match lookupDotted mods (name.splitOn ".") with
+      | some ⟨_, some m⟩ => some (fnUnit m)
+      | some ⟨_, none⟩ => some (fun _ _ => .error .callee)     -- a namespace object is not callable
+      | none => none
+
+def modsOfJ (j : Json) : List ModEntry :=
+  (getArr j "mods").filterMap (fun e =>
+    match e.getObjVal? "p" with
+    | .ok (.arr ps) =>
+      some ⟨ps.toList.filterMap (fun x => match x with | .str s => some s | _ => none),
+            match e.getObjVal? "m" with | .ok q => ratOfJ? q | .error _ => none⟩
+    | _ => none)
 
 def varsOfJ (j : Json) : List (String × Val) :=
   match j.getObjVal? "vars" with
@@ -196,7 +248,7 @@ def c12Run (j : Json) : Json :=
   match treeOfText s with
   | .error e => Json.mkObj [("err", e)]
   | .ok (ts, e) =>
-    let env := mkEnv (getNat j "n" 0) (varsOfJ j)
+    let env := mkEnv (getNat j "n" 0) (varsOfJ j) (modsOfJ j)
     let canon := canonText (Spec.C01.ungroup (desugar e)).flat
     let base : List (String × Json) :=
       [("toks", Json.arr (ts.map tokJson).toArray), ("ast", Json.str e.sexp),
